@@ -88,6 +88,12 @@ META["C20"] = {
     "design_ref": "DESIGN.md §7 C20",
 }
 
+META["C12"] = {
+    "text": "Bounded symbolic model checking of (a) the real GetAssetRates in the open era (>= 2.0.2): with float64 modelled EXACTLY (dyadic rationals, inputs bounded so no rounding can occur) the solver shows for all OPR/SPR rates that each recorded rate is the OPR's when 0.75*spr <= opr <= 1.25*spr and 0 otherwise, and the other winner's rates when one is absent; (b) the real InsertRates/insertRate/SelectIssuances: one row per asset named p<asset>, PEG priced 0 / floor(sum(supply*rate)/supply_PEG) / as reported by phase, a second insert for a height fails and changes nothing, pn_rate is never updated or deleted.",
+    "note": "closed-era bands (10 %, 1 %/0.1 %) need IEEE rounding of non-dyadic constants and are not covered; which phase/band SyncBlock selects per height and 'no winners => no rates, no holding pass' are glue (not yet claimed)",
+    "design_ref": "DESIGN.md §7 C12",
+}
+
 NOT_APPLICABLE = {}
 for i in range(1, 21):
     p = "C%02d" % i
